@@ -91,8 +91,13 @@ func (g *patGen) concat(depth int) string {
 
 func (g *patGen) alt(depth int) string {
 	s := g.concat(depth)
+	if g.rng.Intn(12) == 0 {
+		s = "" // an empty first alternative: `|a`
+	}
 	for n := g.rng.Intn(4); n > 0 && g.rng.Intn(2) == 0; n-- {
-		if g.rng.Intn(2) == 0 {
+		if k := g.rng.Intn(10); k == 0 {
+			s += "|" // an empty alternative: `a|`, `a||b`
+		} else if k < 5 {
 			s += "|" + g.pick(c11Chars) // alternation of single chars -> char class
 		} else {
 			s += "|" + g.concat(depth)
